@@ -120,6 +120,13 @@ CARRIERS = [
     "$[echo! a  b   c]\n",
     "![echo! 'x' y]\n",
     "$(echo! $HOME && ls)\n",
+    # macro bodies whose raw text is captured from token lines: multi-line strings, brackets, continuations, comments
+    "with! ctx:\n    x = '''a\n  b\n'''\n    y\n",
+    "with! ctx:\n    f(1,\n      2)\n\n    # c\n    z = \\\n        3\n",
+    "with! ctx:\n\tif a:\n\t\tb\n\tc\nd\n",
+    "f!(x = '''a\nb''', [1,\n 2])\n",
+    "$[echo! '''a\nb''' c]\n",
+    "with! a as b: '''x\ny'''\n",
     # path literals
     "p'/tmp/x'\n",
     "pf'/tmp/{x}'\n",
